@@ -450,6 +450,8 @@ class HttpParser:
             raise InvalidChunkSize(chunk_size)
 
         if chunk_size == 0:
+            if rest_chunk[:2] != b'\r\n' and rest_chunk.find(b'\r\n\r\n') < 0:
+                return None, None  # the final CRLF / trailer section has not arrived yet
             self._parse_trailers(rest_chunk)
             return 0, None
         return chunk_size, rest_chunk
